@@ -295,4 +295,45 @@ def finishWith (order : List FinishCall) (a b c : Nat) : List Act :=
       ++ List.replicate c Act.nodeLeft
   | _ => []
 
+/-! ## Part A'' — one departure over its whole life: both NodeLeft paths, abort and re-request
+
+`handleNodeLeftEvent` takes the snapshot path when the store holds a snapshot of the departed node,
+otherwise the crash-recovery path (`gateCrashRecovery` → `deriveRelocationSetFromRegistry` →
+`publishRelocationStarted` → `dispatchDerivedRebalance`).  On the crash path the RelocationStarted
+event is published BEFORE the in-flight check (code as it is).  A relocation is dispatched (the
+relocator spawns a worker, which runs once) iff there is something to relocate and no job is
+registered.  A run that completes leaves nothing of the departed node behind; an aborted run deletes
+the snapshot and releases the job but leaves the registry records, so the departure can be
+re-requested. -/
+
+structure Life where
+  snapshot : Bool     -- store holds the departed node's snapshot
+  records : Bool      -- the registry still holds records of the departed node
+  job : Bool          -- relocation job registered (= a worker is queued or running)
+  runs : Nat          -- relocations started (worker runs)
+  announced : Nat     -- RelocationStarted events
+  aborts : Nat        -- runs that aborted
+deriving DecidableEq, Repr
+
+inductive LifeAct where
+  | nodeLeft    -- a NodeLeft for the address is handled by the leader
+  | runOK       -- the worker of the registered job runs to completion
+  | runAbort    -- the relocation of the registered job aborts (Peers fails, spawn fails, worker dies)
+deriving DecidableEq, Repr
+
+def lifeStep (d : Life) : LifeAct → Life
+  | .nodeLeft =>
+    if d.snapshot then
+      if d.job then d else { d with job := true, runs := d.runs + 1, announced := d.announced + 1 }
+    else
+      let d1 := { d with announced := d.announced + 1 }
+      if d.records && !d.job then { d1 with job := true, runs := d.runs + 1 } else d1
+  | .runOK => if d.job then { d with snapshot := false, records := false, job := false } else d
+  | .runAbort => if d.job then { d with snapshot := false, job := false, aborts := d.aborts + 1 } else d
+
+def lifeRun (d : Life) (l : List LifeAct) : Life := l.foldl lifeStep d
+
+def Life.init (snapshot : Bool) : Life :=
+  { snapshot := snapshot, records := true, job := false, runs := 0, announced := 0, aborts := 0 }
+
 end GoaktVerif.Model.C33
